@@ -270,7 +270,25 @@ func (s *State) Rel(x, y ssa.Value) Rel {
 	if kx == ky {
 		return EQ
 	}
-	return s.relKeys(kx, ky)
+	r := s.relKeys(kx, ky)
+	// len/cap are never negative: versus the constant 0 only == and > remain
+	if isLenKey(kx) && isZeroInt(cy) {
+		r &= EQ | GT
+	} else if isLenKey(ky) && isZeroInt(cx) {
+		r &= EQ | LT
+	}
+	return r
+}
+
+func isLenKey(k string) bool { return strings.HasPrefix(k, "len(") || strings.HasPrefix(k, "cap(") }
+
+func isZeroInt(v ssa.Value) bool {
+	k, ok := v.(*ssa.Const)
+	if !ok || k.Value == nil || k.Value.Kind() != constant.Int {
+		return false
+	}
+	n, exact := constant.Int64Val(k.Value)
+	return exact && n == 0
 }
 
 func (s *State) relKeys(kx, ky string) Rel {
